@@ -340,6 +340,20 @@ impl std::fmt::Debug for DhtOperationContext {
     }
 }
 
+/// Removes an entry of `active_operations` when dropped.
+struct ActiveOperationGuard {
+    operations: Arc<Mutex<HashMap<String, DhtOperationContext>>>,
+    message_id: String,
+}
+
+impl Drop for ActiveOperationGuard {
+    fn drop(&mut self) {
+        if let Ok(mut ops) = self.operations.lock() {
+            ops.remove(&self.message_id);
+        }
+    }
+}
+
 /// DHT peer information
 #[derive(Debug, Clone)]
 pub struct DhtPeerInfo {
@@ -1807,6 +1821,12 @@ impl DhtNetworkManager {
         if let Ok(mut ops) = self.active_operations.lock() {
             ops.insert(message_id.clone(), operation_context);
         }
+        // Removes the entry on every exit path, including a caller that drops this future
+        // (cancellation); the periodic sweep remains as a second line of defence.
+        let _operation_guard = ActiveOperationGuard {
+            operations: Arc::clone(&self.active_operations),
+            message_id: message_id.clone(),
+        };
 
         // Send message via network layer
         info!(
